@@ -26,6 +26,7 @@ struct Op {
   double f = 0;
   int d = 0;
   int g = -1;
+  bool dup = false;  // BATCH only: the range passed to the library repeats its first label (still a range of vertices)
 };
 
 struct Driver {
@@ -46,6 +47,9 @@ struct Driver {
     for (auto& s : universe) for (double f : F) ops.push_back({INS, s, f});
     for (auto& s : universe) if (s.size() >= 2) for (double f : F) ops.push_back({INSF, s, f});
     for (auto& s : universe) if (s.size() >= 1) for (double f : F) ops.push_back({BATCH, s, f});
+    // the same batches with a repeated label (sorted, non-decreasing): the documentation asks for "a range of
+    // Vertex_handle", duplicates are not excluded
+    for (auto& s : universe) if (s.size() >= 1) { Op o{BATCH, s, F[0]}; o.dup = true; ops.push_back(o); }
     for (auto& s : universe) ops.push_back({REMOVE, s});
     if (HAS_FILT) { for (double f : F) ops.push_back({PRUNE_F, {}, f}); ops.push_back({PRUNE_F, {}, INF}); }
     for (int d : {-2, -1, 0, 1, 2, 3}) { Op o{PRUNE_D, {}}; o.d = d; ops.push_back(o); }
@@ -158,6 +162,7 @@ struct Driver {
     t << kind_name[o.k];
     if (!o.s.empty()) t << ref::str(o.s);
     if (o.k == INS || o.k == INSF || o.k == BATCH || o.k == PRUNE_F) t << "@" << o.f;
+    if (o.dup) t << "(first label repeated)";
     if (o.k == PRUNE_D) t << "(" << o.d << ")";
     if (o.k == GRAPH) {
       const GraphSpec& g = graphs[o.g];
@@ -201,6 +206,7 @@ struct Driver {
       }
       case BATCH: {
         auto vh = to_vh<ST>(o.s);
+        if (o.dup) vh.insert(vh.begin(), vh.front());
         if constexpr (HAS_FILT) st.insert_batch_vertices(vh, (FV)o.f);
         else st.insert_batch_vertices(vh);
         break;
